@@ -91,7 +91,9 @@ static uint32_t uni_cp(Rng &r) {
         {0x1e00, 0x1eff}, {0x1f00, 0x1fff}, {0x2100, 0x214f}, {0x2160, 0x2188}, {0x24b6, 0x24e9}, {0x2c00, 0x2cff}, {0xa640, 0xa69f},
         {0xa720, 0xa7ff}, {0xab70, 0xabbf}, {0xfb00, 0xfb17}, {0xff21, 0xff5a}, {0x10400, 0x1044f}, {0x104b0, 0x104ff}, {0x10c80, 0x10cb2},
         {0x118a0, 0x118df}, {0x1e900, 0x1e943}, {0x300, 0x36f}, {0x1100, 0x11ff}, {0xac00, 0xd7a3}, {0xf900, 0xfaff}, {0x2f800, 0x2fa1d},
-        {0x1d15e, 0x1d164}, {0x1109a, 0x110ab}, {0x3041, 0x30ff}, {0x900, 0x97f}, {0x9dc, 0x9df}, {0xf43, 0xfb9}, {0x1b06, 0x1b43}};
+        {0x1d15e, 0x1d164}, {0x1109a, 0x110ab}, {0x3041, 0x30ff}, {0x900, 0x97f}, {0x9dc, 0x9df}, {0xf43, 0xfb9}, {0x1b06, 0x1b43},
+        // compatibility characters with long decompositions (1 -> up to 18)
+        {0xfb1d, 0xfb4f}, {0xfdf0, 0xfdfc}, {0x3300, 0x3357}, {0x2460, 0x24b5}, {0x3200, 0x327f}, {0xfe10, 0xfe6b}};
     const uint32_t *rg = ranges[r.below(sizeof ranges / sizeof *ranges)];
     return rg[0] + r.below(rg[1] - rg[0] + 1);
 }
